@@ -105,23 +105,25 @@ def run(chk):
         saved = dict(vnp._HOOKS)
         vnp._HOOKS["linalg.eig"] = lambda mat: (w.copy(), V.copy())
         try:
-            exp, ww, e = ad.exp_matrix(M)
+            # every feasible path of exp_matrix (a closed-form shortcut for some inputs would be one): the same contract on each
+            paths = chk.run_paths(f"C23.eig[dim={dim}]", lambda: ad.exp_matrix(M), [], fn=fnn, replay=rp)
         finally:
             vnp._HOOKS.clear()
             vnp._HOOKS.update(saved)
         Id = vnp.eye(dim)
         Z = vnp.zeros((dim, dim))
-        tot = Z
-        rec = Z
-        spec = Z
-        for i in range(dim):
-            tot = tot + e[i]
-            rec = rec + ww[i] * e[i]
-            spec = spec + e[i] * T.app("exp", ww[i])
-            for j in range(dim):
-                if dim == 4 and chk.tier == "quick" and (i, j) not in ((0, 0), (0, 1), (1, 2), (2, 2), (3, 0), (3, 3)):
-                    continue
-                chk.eq_array(f"C23.eig[dim={dim}].e{i}e{j}", e[i] @ e[j], e[i] if i == j else Z, fn=fnn, goal="e_i e_j == delta_ij e_i", replay=rp)
-        chk.eq_array(f"C23.eig[dim={dim}].complete", tot, Id, fn=fnn, goal="sum_i e_i == 1", replay=rp)
-        chk.eq_array(f"C23.eig[dim={dim}].reconstruct", rec, M, fn=fnn, goal="sum_i w_i e_i == M", replay=rp)
-        chk.eq_array(f"C23.eig[dim={dim}].exp_is_spectral_sum", exp, spec, fn=fnn, goal="exp == sum_i exp(w_i) e_i", replay=rp)
+        for ptag, pc, (exp, ww, e) in paths:
+            tot = Z
+            rec = Z
+            spec = Z
+            for i in range(dim):
+                tot = tot + e[i]
+                rec = rec + ww[i] * e[i]
+                spec = spec + e[i] * T.app("exp", ww[i])
+                for j in range(dim):
+                    if dim == 4 and chk.tier == "quick" and (i, j) not in ((0, 0), (0, 1), (1, 2), (2, 2), (3, 0), (3, 3)):
+                        continue
+                    chk.eq_array(f"{ptag}.e{i}e{j}", e[i] @ e[j], e[i] if i == j else Z, fn=fnn, goal="e_i e_j == delta_ij e_i", replay=rp)
+            chk.eq_array(f"{ptag}.complete", tot, Id, fn=fnn, goal="sum_i e_i == 1", replay=rp)
+            chk.eq_array(f"{ptag}.reconstruct", rec, M, fn=fnn, goal="sum_i w_i e_i == M", replay=rp)
+            chk.eq_array(f"{ptag}.exp_is_spectral_sum", exp, spec, fn=fnn, goal="exp == sum_i exp(w_i) e_i", replay=rp)
